@@ -17,6 +17,22 @@ for _m in sorted(pkgutil.iter_modules([str(_pkg)]), key=lambda m: m.name):
     REGISTRY.update(getattr(_mod, "REG", {}))
     NOT_CLAIMED.update(getattr(_mod, "NOT_CLAIMED", {}))
 
+# halves of a property delivered by different groups are merged here (C14: layout half + wire half)
+try:
+    from reg.wire import C14_WIRE as _c14w
+    if "C14" in REGISTRY:
+        _e = dict(REGISTRY["C14"])
+        _e["module"] = list(_e["module"]) + list(_c14w["module"])
+        _e["suites"] = list(_e["suites"]) + list(_c14w["suites"])
+        _e["partial"] = [p for p in _e.get("partial", []) if not p.startswith("wire half (data written")] + list(_c14w.get("partial", []))
+        _e["assumptions"] = list(_e.get("assumptions", [])) + list(_c14w.get("assumptions", []))
+        _e["rule"] = "layout half: " + _e["rule"] + " | wire half: " + _c14w["rule"]
+        _e["level_text"] = _e["level_text"] + " Wire half: " + _c14w.get("level_text", "")
+        _e["technique"] = _e["technique"] + "; " + _c14w.get("technique", "")
+        REGISTRY["C14"] = _e
+except ImportError:
+    pass
+
 # Only properties listed in harness/enabled.txt are claimed (groups still under construction stay out of MANIFEST.json).
 _enabled = {l.strip() for l in (Path(__file__).resolve().parent / "enabled.txt").read_text().split() if l.strip()}
 PENDING = {k: v for k, v in REGISTRY.items() if k not in _enabled}
